@@ -520,3 +520,30 @@ def const_str(node: ast.AST | None) -> str | None:
     if isinstance(node, ast.Constant) and isinstance(node.value, str):
         return node.value
     return None
+
+
+class _Anon(ast.NodeTransformer):
+    def __init__(self, locals_: set[str]):
+        self.locals = locals_
+
+    def visit_Name(self, node: ast.Name) -> ast.AST:
+        if node.id in self.locals:
+            return ast.copy_location(ast.Name(id="_", ctx=node.ctx), node)
+        return node
+
+    def visit_arg(self, node: ast.arg) -> ast.AST:
+        if node.arg in self.locals:
+            return ast.copy_location(ast.arg(arg="_", annotation=node.annotation), node)
+        return node
+
+
+def anon_text(node: ast.AST, fn: ast.AST | None = None) -> str:
+    """Unparse with every local name / parameter of ``fn`` replaced by ``_`` and whitespace removed.
+
+    Used for structural pattern checks that must not depend on how locals are called.
+    """
+    import copy
+
+    fn = fn if fn is not None else node
+    new = _Anon(local_names(fn)).visit(copy.deepcopy(node))
+    return ast.unparse(new).replace(" ", "").replace("\n", ";")
